@@ -115,6 +115,37 @@ def run(prog, chk):
             chk.ob("C19.structcopy", fn.name, True, "%d whole-struct copy/copies: every released pointer field is re-assigned in the copy before the exit" % st["copies"], loc=fn.loc(), fn=fn)
     if ncopies < 1:
         raise AnalysisBroken("C19.structcopy: only %d whole-struct copies recognised" % ncopies)
+    chk.rule("C19.handover", "an object takes a caller's object over (param->owned field = other param) only as its last fallible step: a failing return "
+                             "after the store leaves the caller and the object both releasing it", floor=60)
+    from ksirules.atomic import _param_store, refusals_after_store
+    from ksirules.ownership import _released_fields
+    from ksirules.model import strip as _strip
+
+    def owning_param_store(fn, n, params):
+        st = _param_store(fn, n, params)
+        if st is None:
+            return None
+        l = _strip(n["l"])
+        rec = l.get("r")
+        if rec not in prog.records or l["f"] not in _released_fields(prog, rec):
+            return None
+        return st
+    nstores = 0
+    for fn in sorted(prog.all_functions(), key=lambda f: (f.unit, f.line)):
+        params = {p["n"] for p in fn.params if "*" in (p.get("t") or "")}
+        mine = sum(1 for b, i, n in fn.nodes() if owning_param_store(fn, n, params))
+        if not mine:
+            continue
+        nstores += mine
+        hits = list(refusals_after_store(fn, store=owning_param_store))
+        for par, field, sloc, rloc, path in hits:
+            chk.ob("C19.handover", "%s:%s->%s" % (fn.name, par, field), False,
+                   "%s->%s takes the caller's object over at %s, but a failing return (%s) is still reachable without the field being reset: the caller releases "
+                   "what it still owns after an error, and so does the object" % (par, field, sloc, rloc), loc=sloc, fn=fn)
+        if not hits:
+            chk.ob("C19.handover", fn.name, True, "%d hand-over store(s): no failing return reachable afterwards" % mine, loc=fn.loc(), fn=fn, nontrivial=False)
+    if nstores < 60:
+        raise AnalysisBroken("C19.handover: only %d hand-over stores recognised" % nstores)
     chk.rule("C19.funnel", "only KSI_malloc / KSI_calloc / KSI_free call the C allocator", floor=1)
     chk.rule("C19.owner", "owning locals are released exactly once or handed over on every path", floor=250)
     chk.rule("C19.absorbed", "an error exit does not destroy a caller's object that was linked into a new object (the caller releases it too)", floor=3)
